@@ -131,6 +131,38 @@ Theorem C17_caller_claim_events :
 Proof. exact caller_claim_events. Qed.
 Print Assumptions C17_caller_claim_events.
 
+(* Contract of the call sites under concurrency: a component's claim is ONE registry operation and the
+   published events are a function of THAT operation's own return value.  (Hence, by
+   C17_concurrent_reported_once, across both components every cross-protocol displacement publishes
+   exactly one event and every event names the session that very claim displaced.) *)
+Theorem C17_call_site_one_step :
+  forall self r k sid,
+    component_claim self r k sid =
+    (fst (reg_step r (OClaim k (mkOwner self sid k))),
+     site_events self (snd (reg_step r (OClaim k (mkOwner self sid k))))).
+Proof. exact component_claim_one_step. Qed.
+Print Assumptions C17_call_site_one_step.
+
+(* A call site that decides from a Lookup issued before its Claim is indistinguishable sequentially ... *)
+Theorem C17_lookup_then_claim_sequentially_same :
+  forall self r k sid, lookup_then_claim self (fun x => x) r k sid = component_claim self r k sid.
+Proof. exact lookup_then_claim_sequentially_same. Qed.
+Print Assumptions C17_lookup_then_claim_sequentially_same.
+
+(* ... but is not atomic: with another party's claim between the two calls a session is displaced
+   without any event, an outcome no order of the two operations produces.  This is what the gated
+   call-site cases (G op) of the correspondence check look for. *)
+Theorem C17_lookup_then_claim_refuted :
+  let interloper := fun r => fst (reg_step r (OClaim wk wpp)) in
+  let split := lookup_then_claim proto_ipoe interloper new_registry wk [115; 49]%N in
+  let site_first := component_claim proto_ipoe new_registry wk [115; 49]%N in
+  let site_last := component_claim proto_ipoe (interloper new_registry) wk [115; 49]%N in
+  snd split = [] /\ reg_get (fst split) wk = Some (mkOwner proto_ipoe [115; 49]%N wk) /\
+  snd site_last = [[112; 57]%N] /\
+  reg_get (interloper (fst site_first)) wk = Some wpp.
+Proof. exact lookup_then_claim_not_atomic. Qed.
+Print Assumptions C17_lookup_then_claim_refuted.
+
 (* Generic: N threads running arbitrary programs of operations, each operation executed as
    invoke; acquire the (reader/writer) lock of its cell; read the cell; compute and write back;
    unlock; respond — with arbitrary interleaving of these small steps.  Every history of a
@@ -222,8 +254,7 @@ Theorem C17_legal_reported_once :
 Proof. exact legal_reported_once. Qed.
 Print Assumptions C17_legal_reported_once.
 
-(* ---- both components end to end (Model.e2e_step; variant Repaired = with
-        fixes/C17_eviction_kills_new_session.patch) ----
+(* ---- both components end to end (Model.e2e_step; variant Repaired = /repo HEAD since 94649ad) ----
    Hypothesis no_repadr: no PADR for a tuple while a PPPoE session of that tuple is live (several
    PPPoE sessions of one host are not a mixed-access matter; handlePADR creates them, see notes).
    After every DISCOVER / PADR of such a history: every tuple has no session at all, or exactly the
@@ -244,10 +275,11 @@ Theorem C17_e2e_newest_survives :
 Proof. exact e2e_newest_survives. Qed.
 Print Assumptions C17_e2e_newest_survives.
 
-(* /repo HEAD (variant Defective: a terminate event resolves to whatever session sits on the tuple,
-   in the publishing component its own new session): after IPoE-then-PPPoE and after
-   PPPoE-then-IPoE on one tuple NO session is left and the tuple is unowned; the repaired variant
-   keeps the newest.  KNOWN_FINDINGS signature eviction-kills-displacing-session. *)
+(* Historical witness (fixed in /repo 94649ad; KNOWN_FINDINGS fixed: eviction-kills-displacing-session).
+   Variant Defective = the code before that commit: a terminate event resolved to whatever session
+   sat on the tuple, in the publishing component its own new session.  After IPoE-then-PPPoE and
+   after PPPoE-then-IPoE on one tuple NO session was left and the tuple unowned; Repaired keeps the
+   newest.  The correspondence no longer accepts the Defective behaviour. *)
 Theorem C17_e2e_newest_survives_refuted :
   e2e_snapshot (e2e_run Defective world0 [EDiscover e2e_k; EPadr e2e_k]) e2e_k = (0%nat, 0%nat, None) /\
   e2e_snapshot (e2e_run Defective world0 [EPadr e2e_k; EDiscover e2e_k]) e2e_k = (0%nat, 0%nat, None) /\
